@@ -41,8 +41,9 @@ def wkbNest : Nat → List UInt8
   | 0 => [1, 1, 0, 0, 0, 0, 0, 0, 0, 0, 0, 0xf0, 0x3f, 0, 0, 0, 0, 0, 0, 0, 0x40]
   | d + 1 => [1, 7, 0, 0, 0, 1, 0, 0, 0] ++ wkbNest d
 
-/-- the witness of `C11.WKB.alloc_superlinear`: `k` nested collections, level `j` claiming `j − 1` elements
-(`= WKB.over k`, theorem `C11.wkbOver_eq`) -/
+/-- regression witness of `C11.WKB.alloc_over_linear`: `k` nested collections, level `j` claiming `j − 1` elements
+(`= WKB.over k`, theorem `C11.wkbOver_eq`) — the family on which the reader's allocation was quadratic while child
+vectors were sized from the claimed element count (before /repo a208e3db7) -/
 def wkbOver : Nat → List UInt8
   | 0 => []
   | k + 1 => [1, 7, 0, 0, 0] ++ (WKB.putU32 .le k ++ wkbOver k)
